@@ -227,7 +227,19 @@ def _shape(o, depth=0):
     return type(o).__name__
 
 
-def _check_shape(res, site, args, kwargs):
+_DOC_FLOAT = {}
+
+
+def _documented_float(spec):
+    k = id(spec)
+    if k not in _DOC_FLOAT:
+        doc = spec.doc() or ""
+        rt = [l.strip() for l in doc.splitlines() if l.strip().startswith(":rtype:")]
+        _DOC_FLOAT[k] = len(rt) == 1 and rt[0] == ":rtype: float"
+    return _DOC_FLOAT[k]
+
+
+def _check_shape(res, site, args, kwargs, spec=None):
     """'Returns values of the documented type and arity': all results a callable gives for
     arguments of the same types (and the same flag / string values) have one shape."""
     if res is None:
@@ -240,6 +252,13 @@ def _check_shape(res, site, args, kwargs):
         raise Violation("%s returned a %r for these arguments but a %r for other arguments of the same "
                         "types: the arity / type of the result depends on the values" % (site, sh, old),
                         site=site, kind="result_shape")
+    # a documented scalar type: ':rtype: float' functions return a number whichever documented
+    # alternative (int, float, Angle) each argument was given as
+    if spec is not None and _documented_float(spec) and not isinstance(res, (int, float)):
+        raise Violation("%s is documented to return a float and returned a %s (%r) for arguments of "
+                        "types %r" % (site, type(res).__name__, res,
+                                      tuple(type(a).__name__ for a in args)),
+                        site=site, kind="result_type")
     # a fixed-arity family: the fits document (a, b) / (a, b, c)
     if site.endswith("general_fitting") and sh != ("tuple", 3):
         raise Violation("%s returned %r; the documented result is the tuple of the three coefficients"
@@ -276,7 +295,7 @@ def body_call(case):
                             kind="self_mutated")
         raise Violation("%s changed the object it was called on" % site, site=site, kind="self_mutated")
     _check_result(res, site, spec, case)
-    _check_shape(res, site, args, kwargs)
+    _check_shape(res, site, args, kwargs, spec)
     r1 = freeze(res)
     # interleave an unrelated call, then repeat
     other = case.get("other")
@@ -317,6 +336,25 @@ def body_call(case):
                             "of calls" % (site, res, ("raised " + val) if kind == "exc" else repr(val)),
                             site=site, kind="history_dependent")
         labels.append("pristine_process_compared")
+    # the same callable for a *neighbouring* instant (every Epoch of the case moved by 1e-9 .. 1e-4
+    # day), asked right after this one: a memo whose key is coarser than the argument hands the
+    # neighbour this call's answer; the pristine process gives the neighbour's own
+    if z is not None and not spec.mutator and case.get("sib", 0) % 3 == 0:
+        near, moved = _neighbour(case)
+        if moved:
+            try:
+                nres = freeze(_invoke(near)[3]())
+            except Exception:
+                nres = None
+            if nres is not None:
+                kind, val = z.evaluate({k: near[k] for k in ("f", "self", "args", "kwargs")})
+                if kind == "harness":
+                    raise RuntimeError("pristine-process oracle failed: %s" % val)
+                if kind != "exc" and val != nres:
+                    raise Violation("%s for a neighbouring instant (Epoch arguments moved by %g day), asked "
+                                    "right after the call above, returned %r; a pristine process returns %r"
+                                    % (site, moved, nres, val), site=site, kind="history_dependent")
+                labels.append("neighbouring_instant_compared_with_pristine_process")
     warm = case.get("warm")
     if warm is not None:
         _check_reuse(case, warm, spec, site, r1)
@@ -419,6 +457,36 @@ def _check_reuse(case, warm, spec, site, r_fresh):
 
 
 _SIB = {}
+
+
+_DELTAS = [1e-9, 1e-7, 3e-6, 8e-6, 1e-4]
+
+
+def _neighbour(case):
+    """A copy of the case in which every encoded Epoch ({"$E": jde}, {"$o": "Epoch", "a": [jde]}) is
+    moved by one small step; returns (case, step) with step 0 when the case holds no Epoch."""
+    import copy
+    from ..core import case_hash
+    step = _DELTAS[case_hash([case["f"], case.get("args")]) % len(_DELTAS)]
+    moved = [0]
+
+    def walk(v):
+        if isinstance(v, dict):
+            if "$E" in v and isinstance(v["$E"], (int, float)):
+                moved[0] += 1
+                return {"$E": float(v["$E"]) + step}
+            if v.get("$o") == "Epoch" and len(v.get("a", [])) == 1 and isinstance(v["a"][0], (int, float)):
+                moved[0] += 1
+                return {"$o": "Epoch", "a": [float(v["a"][0]) + step]}
+            return {k: walk(x) for k, x in v.items()}
+        if isinstance(v, list):
+            return [walk(x) for x in v]
+        return v
+    near = copy.deepcopy({k: case.get(k) for k in ("f", "self", "args", "kwargs")})
+    near["args"] = walk(near["args"])
+    near["self"] = walk(near["self"])
+    near["kwargs"] = walk(near.get("kwargs") or {})
+    return near, (step if moved[0] else 0)
 
 
 def _call_siblings(case):
